@@ -278,6 +278,29 @@ pub struct Stepper {
     /// sequence of terminal/non-Continue step results seen so far
     pub trace: Vec<String>,
     max_steps: u64,
+    /// module sources supplied on request (programs with a `//!modules` header)
+    modules: BTreeMap<String, String>,
+    is_module: bool,
+}
+
+/// A program text may start with `//!modules <json>` where json is
+/// {"main": "/app/main.ts", "mods": {"/app/a.ts": "source", ...}}: it is then run as the
+/// module `main` and the listed modules are supplied when requested.
+pub fn split_module_header(source: &str) -> (Option<String>, BTreeMap<String, String>, &str) {
+    if let Some(rest) = source.strip_prefix("//!modules ")
+        && let Some((head, body)) = rest.split_once('\n')
+        && let Ok(v) = serde_json::from_str::<Value>(head)
+    {
+        let main = v["main"].as_str().map(|s| s.to_string());
+        let mut mods = BTreeMap::new();
+        if let Some(m) = v["mods"].as_object() {
+            for (k, src) in m {
+                mods.insert(k.clone(), src.as_str().unwrap_or("").to_string());
+            }
+        }
+        return (main, mods, body);
+    }
+    (None, BTreeMap::new(), source)
 }
 
 impl Stepper {
@@ -287,8 +310,10 @@ impl Stepper {
         if let Some(t) = gc_threshold {
             interp.set_gc_threshold(t);
         }
-        let first = interp.prepare(source, None);
-        let mut s = Stepper { interp, log, steps: 0, done: None, trace: vec![], max_steps };
+        let (main, modules, body) = split_module_header(source);
+        let is_module = main.is_some();
+        let first = interp.prepare(body, main.map(ModulePath::new));
+        let mut s = Stepper { interp, log, steps: 0, done: None, trace: vec![], max_steps, modules, is_module };
         s.absorb(first);
         s
     }
@@ -304,7 +329,22 @@ impl Stepper {
                 self.done = Some(format!("suspended|{}|{}", pending.len(), cancelled.len()));
             }
             Ok(StepResult::NeedImports(reqs)) => {
-                self.done = Some(format!("need-imports|{}", reqs.len()));
+                self.trace.push(format!("need:{}", reqs.iter().map(|r| r.resolved_path.as_str().to_string()).collect::<Vec<_>>().join(",")));
+                for r in &reqs {
+                    match self.modules.get(r.resolved_path.as_str()) {
+                        Some(src) => {
+                            if let Err(e) = self.interp.provide_module(r.resolved_path.clone(), src) {
+                                let (c, _) = error_class(&e);
+                                self.done = Some(format!("error|{}", c));
+                                return;
+                            }
+                        }
+                        None => {
+                            self.done = Some(format!("need-imports|{}", reqs.len()));
+                            return;
+                        }
+                    }
+                }
             }
             Err(e) => {
                 let (c, _) = error_class(&e);
@@ -330,6 +370,7 @@ impl Stepper {
 
     /// Full trace string: terminal result, step count, console log.
     pub fn trace_string(&self) -> String {
-        format!("{}#steps={}#log={}", self.done.clone().unwrap_or_default(), self.steps, self.log.borrow().join("\u{1f}"))
+        let exports = if self.is_module { format!("#exports={}#requests={}", tsrun::api::get_export_names(&self.interp).join(","), self.trace.join(";")) } else { String::new() };
+        format!("{}#steps={}#log={}{}", self.done.clone().unwrap_or_default(), self.steps, self.log.borrow().join("\u{1f}"), exports)
     }
 }
